@@ -134,7 +134,14 @@ def install_wrappers():
     def opf_accuracy(labels, preds):
         r = orig_acc(labels, preds)
         if CTX["on"]:
-            CTX["log"].append(("acc", {"value": float(r)}))
+            ent = {"value": float(r)}
+            sg = getattr(CTX.get("model"), "subgraph", None)
+            if sg is not None and hasattr(sg, "constant"):
+                # state the candidate was scored with (for C16: a candidate k must be scored with ITS OWN neighbourhood size)
+                ent.update(preds=[int(x) for x in preds], cost=[float(n.cost) for n in sg.nodes], dens=[float(n.density) for n in sg.nodes],
+                           pred=[int(n.pred) for n in sg.nodes], root=[int(n.root) for n in sg.nodes], plab=[int(n.predicted_label) for n in sg.nodes],
+                           constant=float(sg.constant), mn=float(sg.min_density), mx=float(sg.max_density))
+            CTX["log"].append(("acc", ent))
         return r
 
     g.opf_accuracy = opf_accuracy
@@ -596,7 +603,7 @@ def direct_scenario(rng, n=None):
         "direct": True,
         "n": n,
         "k": k,
-        "dens": [rng.randrange(2, 9) / 2.0 for _ in range(n)],          # 1.0, 1.5, ..., 4.0
+        "dens": [rng.randrange(8, 17) / 4.0 for _ in range(n)],         # 2.0, 2.25, ..., 4.0
         "adj": [sorted(rng.sample([j for j in range(n) if j != i], k)) for i in range(n)],
         "Y": relabel([rng.randrange(2) for _ in range(n)]),
         "force": bool(rng.getrandbits(1)) if kind == "knn" else False,
@@ -669,3 +676,66 @@ def run_direct(scn):
         "q": [],
     }
     return {"trace": tr, "fin": {}, "log": [], "skipped_q": 0}, None
+
+
+def episode_traces(scn, rec):
+    """KNN-supervised: one OPFKnnTrace record per candidate k of _learn - the validation predictions that produced the
+    candidate's accuracy, judged (C14's rule) against the forest of that candidate with k = the candidate's k."""
+    np = _np()
+    log = rec["log"]
+    model = rec["model"]
+    df = dist_fn(scn, model)
+    I_train, Iv = list(scn["I_train"]), list(scn["I_val"])
+    n = len(I_train)
+    DQ = np.array([[df(q, t) for t in I_train] for q in Iv])
+    tm = templates()
+    out = []
+    lastk = None
+    for nm, p in log:
+        if nm == "create_arcs":
+            lastk = p["k"]
+        elif nm == "acc" and "preds" in p and lastk is not None and len(p["preds"]) == len(Iv):
+            k = lastk
+            rk = H.Ranker()
+            initc = [d - 1 for d in p["dens"]]
+            rk.add_all(p["dens"] + initc + p["cost"])
+            env0 = consts()
+            env0.update({("v", "const"): p["constant"], ("v", "mn"): p["mn"], ("v", "mx"): p["mx"]})
+            rhos = []
+            for qi in range(len(Iv)):
+                ds = sorted(DQ[qi].tolist())[:k]
+                env = dict(env0)
+                for s_, d_ in enumerate(ds):
+                    env[("d", s_ + 1)] = d_
+                forms = []
+                for nmf in ("rho_k_eps", "rho_k1_eps", "rho_k_0", "rho_k1_0"):
+                    try:
+                        v, _ = T.ev(tm[(nmf, k)], env)
+                    except (T.TermError, ZeroDivisionError, OverflowError, KeyError):
+                        v = float("nan")
+                    forms.append(v)
+                    if not (math.isnan(v) or math.isinf(v)):
+                        rk.add(v)
+                rhos.append(forms)
+            if rk.unrankable:
+                continue
+            rk.freeze()
+            rd = H.Ranker()
+            rd.add_all(DQ.ravel())
+            rd.freeze()
+            costs_sorted = sorted(set(p["cost"]))
+            q = []
+            for qi in range(len(Iv)):
+                forms = [v for v in rhos[qi] if not (math.isnan(v) or math.isinf(v))]
+                if not forms or any(abs(v - c_) <= 1e-9 * max(abs(v), abs(c_)) and v != c_ for v in forms for c_ in costs_sorted):
+                    continue
+                q.append({"dx": [rd(DQ[qi, t]) for t in range(n)], "rho": [(-7777777 if (math.isnan(v) or math.isinf(v)) else rk(v)) for v in rhos[qi]], "res": p["preds"][qi] + 1, "cl": -1, "pos": qi})
+            out.append({
+                "n": n, "k": k, "kind": "knn", "direct": 1, "force": 0, "prop": 0,
+                "dens": [rk(v) for v in p["dens"]], "initc": [rk(v) for v in initc], "L": [int(y) + 1 for y in scn["Y"]],
+                "Wd": [[0] * n for _ in range(n)], "adj0": [[] for _ in range(n)], "adj": [[] for _ in range(n)], "ev": [],
+                "fin": {"cost": [rk(v) for v in p["cost"]], "pred": [x + 1 for x in p["pred"]], "root": [x + 1 for x in p["root"]],
+                        "plab": [x + 1 for x in p["plab"]], "clab": [0] * n, "nc": 0},
+                "q": q,
+            })
+    return out
